@@ -127,7 +127,8 @@ def run(replay=None):
         rep.clause('file:' + out)
     canaries = []
     for ev in events:
-        if ev['out'] == 'ast' and len(ev['members']) >= 2 and ev['obs']['properties'][0]['metadata'] != ev['obs']['properties'][1]['metadata']:
+        if ev['out'] == 'ast' and len(ev['members']) >= 2 and len(ev['obs'].get('properties', [])) >= 2 and \
+                ev['obs']['properties'][0]['metadata'] != ev['obs']['properties'][1]['metadata']:
             c = copy.deepcopy(ev); c['id'] = CANARY_BASE + 1
             ps = c['obs']['properties']
             ps[0]['metadata'], ps[1]['metadata'] = ps[1]['metadata'], ps[0]['metadata']
